@@ -5,7 +5,7 @@ EXTENDS Lifecycle, Json
 
 Outcome ==
     [fork |-> fork, multi |-> multi, prior |-> prior, shared |-> shared, wopt |-> wopt, mmapOut |-> mmapOut,
-     holder |-> holder, faultAt |-> faultAt, faultKind |-> faultKind, reapable |-> reapable, changeAt |-> changeAt,
+     holder |-> holder, faultAt |-> faultAt, faultKind |-> faultKind, symlink |-> symlink, reapable |-> reapable, changeAt |-> changeAt,
      exitZero |-> (TopExit = 0), outClass |-> outClass, outInode |-> outInode,
      oldWritten |-> oldInodeWritten, sibling |-> sibling, temp |-> temp,
      tokensBack |-> (tokens = MaxTokens), wexit |-> wexit]
